@@ -2,8 +2,11 @@
 from vlib import *
 import comp
 
-INV = ["TypeOK", "LookupAgree", "ChangeVisibleBoth", "ChildIndicesExact"]
-PROPS = ["RefuseIdempotent"]
+INV = ["TypeOK", "LookupAgree", "ChangeVisibleBoth", "ChildIndicesExact", "NodeTypeExact"]
+PROPS = ["RefuseIdempotent", "NodeTypeMonotone"]
+# kt.ntype (node type of a key: branch until its first change, data afterwards) is modelled and replayed but is not part of C11's text:
+# a disagreement there is reported as MODEL-DRIFT, not as a violation
+OWN = ("kt.panic", "kt.refuse", "kt.accept", "kt.unchanged", "kt.lookup", "kt.change", "kt.kids")
 
 
 def check(prop, tier):
@@ -13,11 +16,14 @@ def check(prop, tier):
     hint = ".build/verifh keytree -one <this file>"
     runs = []
     if q:
-        cfgs = [({"MaxOps": "3"}, ())]
+        cfgs = [({"MaxOps": "3"}, ()),
+                # "z" is the zero type id: a lookup with it is a lookup like any other (no fallback to records of other types)
+                ({"MaxOps": "3", "Types": '{"t", "z"}', "Offs": "{0, 32}", "Vals": '{"v"}'}, ())]
     else:
         cfgs = [({"MaxOps": "4", "Offs": "{0, 32}", "Vals": '{"v"}'}, ()),
                 ({"MaxOps": "4", "Offs": "{0, 1}", "Types": '{"t"}', "MaxCalls": "2"}, ()),
                 ({"MaxOps": "3", "Accts": '{"a", "b"}'}, ()),
+                ({"MaxOps": "4", "Types": '{"t", "z"}', "Offs": "{0, 32}", "Vals": '{"v"}'}, ()),
                 ({"MaxOps": "10", "Accts": '{"a", "b"}', "Slots": "{0, 1, 2}", "Names": '{"x", "y", "z"}', "NestIdx": '{"x", "y", ""}', "MaxCalls": "3"},
                  ("-simulate", "num=1200", "-depth", "11", "-seed", str(seed())))]   # ~180 successors per step are all emitted: ~2M histories
     comp.negative(v, "KeyTree", "KeyTree_base.cfg", "DevFirstWins", "LookupAgree", invariants=INV, overrides={"MaxOps": "3"})
@@ -25,7 +31,7 @@ def check(prop, tier):
         sim = "-simulate" in extra
         r, stats = comp.emit_replay(v, "KeyTreeScn", "KeyTree_base.cfg", "keytree", 1500 if q else 3400, overrides=ov,
                                     invariants=INV + ["Emit"], properties=None if sim else PROPS, extra=extra,
-                                    workers=1 if sim else 8, replay_hint=hint)
+                                    workers=1 if sim else 8, replay_hint=hint, own_comps=OWN)
         runs.append({"overrides": ov, "simulate": sim, "histories": r["histories"], "ops": r["ops"], "by_outcome": r["byRes"],
                      "mismatching_components": r["byComp"], "tlc": stats})
     v.notes["runs"] = runs
@@ -33,7 +39,8 @@ def check(prop, tier):
     v.cov["rule"] = ("every reachable state of KeyTree.tla within the constants is a complete history of register-top-level / register-nested / "
                      "journal-change / enter-call / exit-call operations (well-formed: path <-> (slot, offset, type) one-to-one per account; refusals and "
                      "repeats included); each is replayed on a fresh vm.Tracer through SaveStateKey/SaveStateChange/SaveCall/ExitCall and all of "
-                     "FindKeyIndices/Variable/Slot/ChildrenIndices/IndicesOfChanges/Children are compared with the ghost registration record; "
+                     "FindKeyIndices/Variable/Slot/ChildrenIndices/IndicesOfChanges/Children (element by element, in order) are compared with the ghost "
+                     "registration record, NodeType with the modelled branch->data transition (drift only); "
                      "non-trivial = at least one registered key and two operations")
     v.assumptions += ["TLC 1.8", "registration sequences are well-formed (one name path per (slot, offset, type) and vice versa within an account)",
                       "thorough tier adds random histories of length 10 by tlc -simulate (not exhaustive)"]
